@@ -178,9 +178,27 @@ impl C04 {
             vocab.push(w.to_string());
         }
         let cli_home = crate::ucgrun::new_scratch_dir("c04home");
+        let ucg = Ucg::new();
+        // data files that include expressions of generated programs can name
+        for (name, bytes) in [
+            ("empty.json", &b""[..]),
+            ("empty.yaml", b""),
+            ("empty.toml", b""),
+            ("empty.txt", b""),
+            ("blank.json", b" \n\t"),
+            ("data.json", b"{\"a\": 1, \"b\": [1, 2.5, null, \"s\"]}"),
+            ("bad.json", b"{\"a\": "),
+            ("data.yaml", b"a: 1\nb: [1, 2]\n"),
+            ("bad.yaml", b"a: [1, 2\n b: {"),
+            ("data.toml", b"a = 1\n[t]\nb = \"s\"\n"),
+            ("bad.toml", b"a = = 1"),
+            ("bin.dat", b"\xff\xfe\x00\x80 not utf-8"),
+        ] {
+            let _ = std::fs::write(ucg.scratch.join(name), bytes);
+        }
         C04 {
             tier,
-            ucg: Ucg::new(),
+            ucg,
             corpus,
             vocab,
             cli_home,
@@ -505,7 +523,13 @@ impl C04 {
             let a = operand(t);
             let b = operand(t);
             let c = operand(t);
-            let stmt = match t.weighted(&[8, 4, 4, 3, 3, 2, 2, 2, 2]) {
+            let stmt = match t.weighted(&[8, 4, 4, 3, 3, 2, 2, 2, 2, 3]) {
+                9 => format!(
+                    "let v{} = include {} \"{}\";",
+                    i,
+                    t.pick(&["str", "b64", "b64urlsafe", "json", "yaml", "toml", "bogus", "xml"]),
+                    t.pick(&["empty.json", "empty.yaml", "empty.toml", "empty.txt", "blank.json", "data.json", "bad.json", "data.yaml", "bad.yaml", "data.toml", "bad.toml", "bin.dat", "missing.json", ".", ""])
+                ),
                 0 => format!("let v{} = {} {} {};", i, a, t.pick(&OPS), b),
                 1 => format!("let v{} = {} {} {} {} {};", i, a, t.pick(&OPS), b, t.pick(&OPS), c),
                 2 => {
@@ -632,7 +656,7 @@ impl Property for C04 {
         "C04"
     }
     fn rule(&self) -> String {
-        "enumerated: every .ucg file shipped in the repository and every file of fuzz/corpus, unmodified; generated: token soups over the full vocabulary with arbitrary Unicode characters, statement-shaped soups, 1-3 token mutations (delete/duplicate/swap/replace) of windows of those files, edge-arithmetic programs (zero divisors, i64 extremes, range limits, format placeholder/argument mismatches, casts and functional ops on wrong shapes), bracket nesting 1..64, valid generated programs with comments, newlines and CRLF between any two tokens, constraint programs (plain, recursive, mutually recursive and ill-founded definitions applied to values nested up to 14 deep); each input goes through tokenize, parse (with/without comments), type check, translate, format, evaluate (strict / non-strict), convert (8 converters) under catch_unwind in a supervised worker with a deterministic work bound; 1 in 40 also through the real binary (build, fmt, test). Non-trivial: the input parses and has >= 3 tokens; distinct by input text.".into()
+        "enumerated: every .ucg file shipped in the repository and every file of fuzz/corpus, unmodified; generated: token soups over the full vocabulary with arbitrary Unicode characters, statement-shaped soups, 1-3 token mutations (delete/duplicate/swap/replace) of windows of those files, edge-arithmetic programs (zero divisors, i64 extremes, range limits, format placeholder/argument mismatches, casts and functional ops on wrong shapes, includes of empty / blank / malformed / binary / missing data files under every include type), bracket nesting 1..64, valid generated programs with comments, newlines and CRLF between any two tokens, constraint programs (plain, recursive, mutually recursive and ill-founded definitions applied to values nested up to 14 deep); each input goes through tokenize, parse (with/without comments), type check, translate, format, evaluate (strict / non-strict), convert (8 converters) under catch_unwind in a supervised worker with a deterministic work bound; 1 in 40 also through the real binary (build, fmt, test). Non-trivial: the input parses and has >= 3 tokens; distinct by input text.".into()
     }
     fn assumptions(&self) -> Vec<String> {
         vec![
